@@ -69,10 +69,14 @@ def lbry_mods():
     return Node, PeerManager, make_kademlia_peer, constants
 
 
-async def quiet(loop, nodes, limit=400):
-    """let virtual time pass until no RPC is in flight anywhere"""
+async def quiet(loop, nodes, limit=8000, net=None, drain_pings=False):
+    """let virtual time pass until no RPC and no datagram (not even a duplicate copy) is in flight anywhere; with
+    drain_pings also until every ping queue is empty (the network has finished getting to know itself)"""
     for _ in range(limit):
-        if not any(n.protocol.sent_messages for n in nodes):
+        busy = any(n.protocol.sent_messages for n in nodes) or (net is not None and not net.idle())
+        if drain_pings and not busy:
+            busy = any(n.protocol.ping_queue._pending_contacts or n.protocol.ping_queue._running_pings for n in nodes)
+        if not busy:
             return True
         await asyncio.sleep(0.5)
     return False
@@ -110,7 +114,8 @@ def hit_strategy(tier):
         "blob_mode": st.sampled_from(["random", "near_node", "near_announcer"]),
         "lookers_after_jump": st.integers(1, 4),
         "stages": st.sampled_from([["now"], ["now", "1h"], ["now", "24h-"], ["now", "24h+"], ["now", "1h", "24h-", "24h+"],
-                                   ["now", "24h-", "24h+"]]),
+                                   ["now", "24h-", "24h+"], ["now", "re20h", "25h", "44h+"], ["re20h", "25h"],
+                                   ["now", "re20h", "44h+"]]),
     })
 
 
@@ -146,7 +151,7 @@ async def hit_async(case, out, loop):
             if d:
                 await asyncio.sleep(d)
         await asyncio.sleep(700)
-        if not await quiet(loop, nodes):
+        if not await quiet(loop, nodes, net=net, drain_pings=True):
             out.violate("hit:network-never-quiet", "RPCs still in flight after settle")
             return
         if not all(x.joined.is_set() for x in nodes):
@@ -175,7 +180,7 @@ async def hit_async(case, out, loop):
             out.check(set(stored) <= others, "hit:announce-reports-unknown-node", "")
             out.check(len(set(stored)) == len(stored), "hit:announce-reports-node-twice", "")
         t_done = loop.time()
-        await quiet(loop, nodes)
+        await quiet(loop, nodes, net=net)
         # who stores it
         holders = [i for i in range(n) if nodes[i].protocol.data_store.get_peers_for_blob(key)]
         dist = lambda i: int.from_bytes(ids[i], "big") ^ int.from_bytes(key, "big")  # noqa: E731
@@ -220,19 +225,45 @@ async def hit_async(case, out, loop):
             if stage == "now":
                 await check_lookups("now", everyone, True)
             elif stage == "1h":
-                await quiet(loop, nodes)
+                await quiet(loop, nodes, net=net)
                 await jump(loop, 3600 - (loop.time() - t_done))
                 await asyncio.sleep(30)
-                await quiet(loop, nodes)
+                await quiet(loop, nodes, net=net)
                 await check_lookups("1h", some, True)
             elif stage == "24h-":
-                await quiet(loop, nodes)
+                await quiet(loop, nodes, net=net)
                 await jump(loop, max(0, (t_start + 86400 - 300) - loop.time()))
                 await check_lookups("24h-5min", some, True)
             elif stage == "24h+":
-                await quiet(loop, nodes)
+                await quiet(loop, nodes, net=net)
                 await jump(loop, max(0, (t_done + 86400 + 300) - loop.time()))
                 await check_lookups("24h+5min", some, False)
+            elif stage == "re20h":
+                # the announcers announce again 20 h later: from then on the *latest* announcement counts
+                await quiet(loop, nodes, net=net)
+                await jump(loop, max(0, (t_done + 72000) - loop.time()))
+                await asyncio.sleep(30)
+                await quiet(loop, nodes, net=net)
+                t_restart = loop.time()
+                for a in ann:
+                    try:
+                        stored = await asyncio.wait_for(nodes[a].announce_blob(key.hex()), 100000)
+                    except asyncio.TimeoutError:
+                        out.violate("hit:announce-hangs", "re-announce")
+                        return
+                    if not stored:
+                        out.violate("hit:re-announce-stored-nowhere", "n=%d announcer %d" % (n, a))
+                        return
+                t_redone = loop.time()
+                await quiet(loop, nodes, net=net)
+            elif stage == "25h":
+                await quiet(loop, nodes, net=net)
+                await jump(loop, max(0, (t_start + 90000) - loop.time()))
+                await check_lookups("25h-after-reannounce-at-20h", some, True)
+            elif stage == "44h+":
+                await quiet(loop, nodes, net=net)
+                await jump(loop, max(0, (t_redone + 86400 + 300) - loop.time()))
+                await check_lookups("24h+5min-after-reannounce", some, False)
             out.label("stage:" + stage)
         if net.handler_errors:
             e = net.handler_errors[0][1]
@@ -710,7 +741,8 @@ def _run(fn, case):
 
 PARTS = [
     Part("hit", hit_strategy, lambda c: _run(hit_async, c), 80, 250, quick_shards=6, thorough_shards=16,
-         essential=("stage:24h+", "stage:24h-", "stage:1h", "duplicated", "reordered", "n:5-12", "n:13-40")),
+         essential=("stage:24h+", "stage:24h-", "stage:1h", "stage:re20h", "stage:25h", "stage:44h+", "duplicated", "reordered",
+                    "n:5-12", "n:13-40")),
     Part("paging", paging_strategy, lambda c: _run(paging_async, c), 200, 1000, quick_shards=4, thorough_shards=16,
          essential=("m:89-100", "m:17-88", "storers:1", "storers:3")),
     Part("faults", faults_strategy, lambda c: _run(faults_async, c), 400, 2000, quick_shards=6, thorough_shards=16,
